@@ -218,6 +218,14 @@ def announce_vpls(
                 await reactor.processes.answer_error(service)
                 return
 
+            # Refuse now what could not be encoded later (the session would be torn down when it is sent)
+            for route in routes:
+                error = validate_announce(route)
+                if error:
+                    self.log_failure(error)
+                    await reactor.processes.answer_error(service, error)
+                    return
+
             # Register flush callbacks for connected peers (if sync mode)
             flush_events = register_flush_callbacks(peers, reactor, sync_mode)
 
@@ -299,6 +307,14 @@ def announce_attributes(
                 self.log_failure(f'command could not parse route in : {cmd}')
                 await reactor.processes.answer_error(service)
                 return
+
+            # Refuse now what could not be encoded later (the session would be torn down when it is sent)
+            for route in routes:
+                error = validate_announce(route)
+                if error:
+                    self.log_failure(error)
+                    await reactor.processes.answer_error(service, error)
+                    return
 
             # Register flush callbacks for connected peers (if sync mode)
             flush_events = register_flush_callbacks(peers, reactor, sync_mode)
@@ -393,6 +409,14 @@ def announce_flow(
                 self.log_failure(f'command could not parse flow in : {cmd}')
                 await reactor.processes.answer_error(service)
                 return
+
+            # Refuse now what could not be encoded later (the session would be torn down when it is sent)
+            for route in routes:
+                error = validate_announce(route)
+                if error:
+                    self.log_failure(error)
+                    await reactor.processes.answer_error(service, error)
+                    return
 
             # Register flush callbacks for connected peers (if sync mode)
             flush_events = register_flush_callbacks(peers, reactor, sync_mode)
@@ -601,6 +625,14 @@ def announce_ipv4(
                 await reactor.processes.answer_error(service)
                 return
 
+            # Refuse now what could not be encoded later (the session would be torn down when it is sent)
+            for route in routes:
+                error = validate_announce(route)
+                if error:
+                    self.log_failure(error)
+                    await reactor.processes.answer_error(service, error)
+                    return
+
             # Register flush callbacks for connected peers (if sync mode)
             flush_events = register_flush_callbacks(peers, reactor, sync_mode)
 
@@ -682,6 +714,14 @@ def announce_ipv6(
                 self.log_failure(f'command could not parse ipv6 in : {cmd}')
                 await reactor.processes.answer_error(service)
                 return
+
+            # Refuse now what could not be encoded later (the session would be torn down when it is sent)
+            for route in routes:
+                error = validate_announce(route)
+                if error:
+                    self.log_failure(error)
+                    await reactor.processes.answer_error(service, error)
+                    return
 
             # Register flush callbacks for connected peers (if sync mode)
             flush_events = register_flush_callbacks(peers, reactor, sync_mode)
